@@ -223,6 +223,11 @@ func cmdClusterDuties(args []string) int {
 					// the poison: far below anything signed for this account - 1 -> 2, or the genesis-shaped 0 -> 0
 					pe := uint64(s.seq % 2)
 					d = duty{Att: &AttData{Dom: duties[0].Att.Dom, Slot: 64 * pe, Idx: 1, BBR: fill32(0x33), Src: &Checkpoint{Epoch: pe, Root: fill32(1)}, Tgt: &Checkpoint{Epoch: 2 * pe, Root: fill32(0x33)}}}
+					if s.seq%3 == 2 {
+						// ... or far above: a target no stored watermark can hold (2^64 - 1, 2^63), with an ordinary source
+						far := []uint64{1<<64 - 1, 1 << 63}[s.seq%2]
+						d = duty{Att: &AttData{Dom: duties[0].Att.Dom, Slot: 64, Idx: 1, BBR: fill32(0x33), Src: &Checkpoint{Epoch: duties[0].Att.Src.Epoch, Root: fill32(1)}, Tgt: &Checkpoint{Epoch: far, Root: fill32(0x33)}}}
+					}
 				}
 				var batchObs []Obs
 				var pre, post *StoreView
